@@ -106,22 +106,37 @@ Proof.
     + destruct (peek rest); try discriminate Hst; reflexivity.
 Qed.
 
+Definition line_head (t : tok) : bool :=
+  match t with NEWLINE | EOF | SEMI | DEF | IF | FOR | WHILE | OUTDENT | ELIF | ELSE => false | _ => true end.
+
+Lemma starts_line_head t : starts t = true -> line_head t = true.
+Proof. destruct t; try discriminate; reflexivity. Qed.
+
 Lemma small_head s rest : small_ok s = true ->
-  small_tokens s <> [] /\
-  match peek (small_tokens s ++ rest) with NEWLINE | EOF | SEMI | DEF | IF | FOR | WHILE | OUTDENT | ELIF | ELSE => false | _ => true end = true.
+  small_tokens s <> [] /\ line_head (peek (small_tokens s ++ rest)) = true.
 Proof.
   intros Hok. destruct s; cbn [small_ok] in Hok; try discriminate; cbn [small_tokens].
   - split_andb.
-    match goal with H1 : wf_expr lhs = true |- _ => pose proof (peek_wf_starts lhs ((op, oppos) :: tokens rhs ++ rest) H1) as Hs;
-      destruct (wf_parts _ H1) as (Hw & Hi & _); destruct (head_ok_all lhs Hw Hi) as (Hne & _) end.
+    match goal with H1 : wf_expr lhs = true |- _ =>
+      destruct (wf_parts _ H1) as (Hw & Hi & _); destruct (head_ok_all lhs Hw Hi) as (Hne & Hst & _) end.
     split; [destruct (tokens lhs); [congruence|discriminate]|].
-    rewrite <- app_assoc. cbn [app]. destruct (peek (tokens lhs ++ (op, oppos) :: tokens rhs ++ rest)); try discriminate Hs; reflexivity.
+    rewrite <- app_assoc. rewrite (peek_app _ _ Hne). apply starts_line_head. assumption.
   - split; [discriminate|]. destruct t; try discriminate; reflexivity.
-  - pose proof (peek_wf_starts x rest Hok) as Hs.
-    destruct (wf_parts _ Hok) as (Hw & Hi & _). destruct (head_ok_all x Hw Hi) as (Hne & _).
-    split; [assumption|]. destruct (peek (tokens x ++ rest)); try discriminate Hs; reflexivity.
+  - destruct (wf_parts _ Hok) as (Hw & Hi & _). destruct (head_ok_all x Hw Hi) as (Hne & Hst & _).
+    split; [assumption|]. rewrite (peek_app _ _ Hne). apply starts_line_head. assumption.
   - split; [discriminate|reflexivity].
   - destruct result; split; try discriminate; reflexivity.
+Qed.
+
+Lemma smalls_head l rest : line_ok l = true -> line_head (peek (smalls_tokens l ++ rest)) = true.
+Proof.
+  unfold line_ok. destruct l as [|s l]; [discriminate|]. cbn [nonempty andb forallb]. intros H.
+  apply andb_true_iff in H. destruct H as [Hs _].
+  destruct (small_head s rest Hs) as [Hne H].
+  destruct l as [|s2 l].
+  - exact H.
+  - change (smalls_tokens (s :: s2 :: l)) with (small_tokens s ++ semi :: smalls_tokens (s2 :: l)).
+    rewrite <- app_assoc. rewrite (peek_app _ _ Hne). rewrite (peek_app _ _ Hne) in H. exact H.
 Qed.
 
 (* ---- a line of small statements ---- *)
@@ -151,20 +166,9 @@ Proof.
     assert (Hl : nonempty (s2 :: l) && forallb small_ok (s2 :: l) = true) by exact Hall.
     specialize (IH sm rest n Hl ltac:(lia)).
     cbn [forallb] in Hall. apply andb_true_iff in Hall. destruct Hall as [Hs2 _].
-    assert (Hpk : match peek ((smalls_tokens (s2 :: l) ++ (if sm then [semi] else []) ++ [newline]) ++ rest) with NEWLINE | EOF => false | _ => true end = true).
-    { destruct l as [|s3 l].
-      - cbn [smalls_tokens]. rewrite <- !app_assoc.
-        destruct (small_head s2 ((if sm then [semi] else []) ++ [newline] ++ rest) Hs2) as [_ H].
-        destruct (peek (small_tokens s2 ++ (if sm then [semi] else []) ++ [newline] ++ rest)); try discriminate H; reflexivity.
-      - change (smalls_tokens (s2 :: s3 :: l)) with (small_tokens s2 ++ semi :: smalls_tokens (s3 :: l)).
-        rewrite <- !app_assoc.
-        destruct (small_head s2 ((semi :: smalls_tokens (s3 :: l)) ++ (if sm then [semi] else []) ++ [newline] ++ rest) Hs2) as [_ H].
-        match goal with |- match peek ?X with _ => _ end = true => match type of H with match peek ?Y with _ => _ end = true => replace X with Y by (cbn [app]; rewrite <- ?app_assoc; reflexivity) end end.
-        match type of H with match ?t with _ => _ end = true => destruct t; try discriminate H; reflexivity end. }
-    rewrite <- !app_assoc in IH.
-    match goal with |- context [match peek ?X with NEWLINE => _ | _ => _ end] =>
-      replace X with ((smalls_tokens (s2 :: l) ++ (if sm then [semi] else []) ++ [newline]) ++ rest) by (rewrite <- !app_assoc; reflexivity) end.
-    rewrite <- !app_assoc in Hpk. rewrite <- !app_assoc.
+    pose proof (smalls_head (s2 :: l) ((if sm then [semi] else []) ++ [newline] ++ rest) Hl) as Hpk.
+    rewrite <- !app_assoc in IH. cbn [app] in IH, Hpk.
+    unfold line_head in Hpk.
     match type of Hpk with match ?t with _ => _ end = true => destruct t eqn:E; try discriminate Hpk end;
       rewrite IH; reflexivity.
 Qed.
